@@ -249,6 +249,10 @@ func buildLabBatch(args map[string]string, dirName string, withFaults bool) (*la
 	if s, ok := args["oamapping"]; ok {
 		oaMappingStyle = s
 	}
+	if s, ok := args["jstypearray"]; ok {
+		jsTypeArrayStyle = s
+	}
+	flagmix := args["flagmix"] != "0" && !opts.Builders
 	lab, err := NewLab(labWorkDir(dirName), opts)
 	if err != nil {
 		return nil, err
@@ -261,15 +265,28 @@ func buildLabBatch(args map[string]string, dirName string, withFaults bool) (*la
 			if only, ok := args["format"]; ok && only != f {
 				continue
 			}
+			// flagmix (default on): equal / validate are switched off for part of the terms, so that a
+			// defect hidden behind a method that no longer compiles still reaches dec/strict
+			flags := opts.GoFlags
+			if flagmix {
+				switch (i + i/4) % 4 {
+				case 1:
+					flags.Equal = false
+				case 2:
+					flags.Validate = false
+				case 3:
+					flags.Equal, flags.Validate = false, false
+				}
+			}
 			var c *LabCase
 			if vf, ok := args["veneers"]; ok {
 				raw, err := os.ReadFile(vf)
 				if err != nil {
 					return err
 				}
-				c = lab.AddCaseVeneers(d, f, opts.GoFlags, opts.Builders, opts.Converters, string(raw))
+				c = lab.AddCaseVeneers(d, f, flags, opts.Builders, opts.Converters, string(raw))
 			} else {
-				c = lab.AddCase(d, f)
+				c = lab.AddCaseWith(d, f, flags, opts.Builders, opts.Converters)
 			}
 			b.cases = append(b.cases, c)
 			if c.Defs == nil {
@@ -347,6 +364,9 @@ func labSortedKeys(m map[string]int) []string {
 func init() {
 	register("lab-selftest", func(args map[string]string, out *bufio.Writer) error {
 		t0 := time.Now()
+		if _, ok := args["flagmix"]; !ok {
+			args["flagmix"] = "0" // the self-test exercises equals / validate on every case
+		}
 		b, err := buildLabBatch(args, "selftest", true)
 		if err != nil {
 			return err
